@@ -97,8 +97,8 @@ func (m *c12) checkMem(op string, restored bool) *core.Violation {
 		return nil
 	}
 	for i := range m.backing {
-		if i == m.n && !restored {
-			continue
+		if i == m.n && !restored && m.n > 0 {
+			continue // the byte behind a non-empty input may be borrowed for the terminator until Restore
 		}
 		if m.backing[i] != m.snap[i] {
 			return m.viol("caller-memory-modified", "after %s the caller's array differs at index %d (len %d, cap %d): %#x, was %#x", op, i, m.n, len(m.backing), m.backing[i], m.snap[i])
@@ -163,7 +163,7 @@ func RunC12(ctx *core.Ctx) *core.Violation {
 	big := t.Chance(1, 60)
 	if big {
 		// sizes around the thresholds an implementation might special-case
-		n = t.Pick(255, 256, 257, 4095, 4096, 4097, 8192, 65535, 65536, 65537, 70000) + t.Draw(3) - 1
+		n = t.Pick(255, 256, 257, 511, 512, 513, 896, 4095, 4096, 4097, 8192, 65535, 65536, 65537, 70000) + t.Draw(3) - 1
 		ctx.Count("probe_big_input")
 	}
 	alphabet := t.Draw(4)
@@ -234,7 +234,15 @@ func RunC12(ctx *core.Ctx) *core.Violation {
 		case ctorBufferReader:
 			m.z = mkR(buffer.NewReader(b))
 		case ctorBytesBuffer:
-			m.z = mkR(bytes.NewBuffer(b))
+			bb := bytes.NewBuffer(b)
+			if n > 0 && t.Chance(1, 3) {
+				// the caller has already read k bytes: the Input must cover the unread remainder
+				k := 1 + t.Draw(n)
+				bb.Next(k)
+				data = data[k:]
+				ctx.Count("probe_bytes_buffer_partially_read")
+			}
+			m.z = mkR(bb)
 		default:
 			m.z = mk(b)
 		}
@@ -489,6 +497,9 @@ func RunC12(ctx *core.Ctx) *core.Violation {
 			}
 			if i < 0 {
 				i = 0
+			}
+			if m.pos > 0 && t.Chance(1, 8) {
+				i = -(1 + t.Draw(min(m.pos, 5))) // look-behind
 			}
 			abs := m.pos + i
 			r, rn := m.z.PeekRune(i)
